@@ -289,6 +289,22 @@ def main(repo):
         lines.append("")
     lines.append("Definition protocols : list (string * list op) := [%s]." %
                  "; ".join('("%s", proto_%s)' % (n, n.lower()) for n, _ in protos))
+
+    def writes(ops):
+        out = []
+        for o in ops:
+            if o[0] == "Write":
+                out.append(o[1])
+            elif o[0] == "If":
+                out += writes(o[2])
+        return out
+    base = set(writes(dict(protos)["None"])) | {RESULT_SUFFIX, BACKUP_SUFFIX}
+    side = [(n, sorted({idx[p_] for p_ in writes(ops) if p_ not in base})) for n, ops in protos]
+    side = [(n, ps) for n, ps in side if ps]
+    lines.append("")
+    lines.append("(* side files: paths written (np.savez via latest_mps.dump) only when dump_mps is set *)")
+    lines.append("Definition side_files : list (string * list op * list path) := [%s]." %
+                 "; ".join('("%s", proto_%s, [%s])' % (n, n.lower(), "; ".join(str(x) for x in ps)) for n, ps in side))
     text = "\n".join(lines) + "\n"
     info = {"paths": paths, "protocols": {n: ops_json(ops, idx) for n, ops in protos}}
     return text, info
